@@ -15,6 +15,7 @@ API (every leg returns dict(evaluations=int, violations=[{"what", "input", "sig"
     leg_running(tier, seed)                      C02
     leg_referents(tier, seed)                    C20
     leg_purity(tier, seed)                       C06
+    leg_known_discrepancies(tier, seed)          sig-tagged reproductions of recorded discrepancies
     corpus_codes(tier, seed, stdlib=True)        -> list of dict(code, source, origin, name, ...)
     collect_states(tier, seed, leg, limit)       -> (distinct observed states of program frames, leg result)
     corpus(tier, seed) / compile_corpus(tier, seed) / emit(desc) / execute(prog, vec, ...) /
@@ -186,6 +187,7 @@ def _merge(res, leg, children):
                 _add_counts(info.setdefault(key, {}), i.get(key, {}))
             info["distinct_code_objects"] = info.get("distinct_code_objects", 0) + i.get("distinct_code_objects", 0)
             info["violations_total"] = info.get("violations_total", 0) + i.get("violations_total", 0)
+            info["known_total"] = info.get("known_total", 0) + i.get("known_total", 0)
             info["truncated"] = bool(info.get("truncated")) or bool(i.get("truncated"))
             info["shard_walls"] = info.get("shard_walls", [info.get("wall")]) + [i.get("wall")]
             info["shard_cpus"] = info.get("shard_cpus", [info.get("cpu")]) + [i.get("cpu")]
@@ -194,6 +196,7 @@ def _merge(res, leg, children):
                                          "python": i.get("python"), "counts": {}})
             d["evaluations"] += r["evaluations"]
             d["violations_total"] += i.get("violations_total", len(r["violations"]))
+            d["known_total"] = d.get("known_total", 0) + i.get("known_total", 0)
             d["wall"].append(i.get("wall"))
             d.setdefault("cpu", []).append(i.get("cpu"))
             d["truncated"] = d["truncated"] or bool(i.get("truncated"))
@@ -250,6 +253,17 @@ def leg_referents(tier="quick", seed=0):
     set_trickery_enabled sequences (also from/on a second thread) and k-th-invocation faults in
     every helper of the trickery analysis."""
     return _with_children("referents", core.leg_referents, tier, seed)
+
+
+def leg_known_discrepancies(tier="quick", seed=0):
+    """Recorded discrepancies between /repo and the property texts, reproduced on dedicated
+    programs; every matching violation carries `sig`, result["known_reproduced"] lists the
+    signatures seen (see progs_child.KNOWN_SIGS).  Not part of the other legs, which therefore
+    stay at 0 violations on the unchanged tree:
+      exit_wrapper_varargs_obj_none  (C01, C02)   referents_alias_exit_name  (C20)"""
+    res = _with_children("known", core.leg_known, tier, seed)
+    res["known_reproduced"] = sorted(set(v["sig"] for v in res["violations"] if v.get("sig")))
+    return res
 
 
 def collect_states(tier="quick", seed=0, leg="suspended", limit=None, progs=None):
@@ -691,6 +705,10 @@ def selftest():
             print("   VIOLATION", v["what"])
             print("   ", json.dumps(v["input"], default=repr)[:1500])
         ok &= r["info"]["violations_total"] == 0 and r["evaluations"] > 0
+    r = leg_known_discrepancies("tiny", 0)
+    print("known      evaluations=%d unclassified=%d tagged=%d reproduced=%s" % (
+        r["evaluations"], r["info"]["violations_total"], r["info"]["known_total"], r["known_reproduced"]))
+    ok &= r["info"]["violations_total"] == 0
     neg = _negative_controls()
     print("negative controls (violations expected > 0):", neg)
     ok &= all(v > 0 for v in neg.values())
@@ -719,7 +737,7 @@ def main(argv=None):
     import argparse
     ap = argparse.ArgumentParser(prog="python -m harness.progs")
     ap.add_argument("--selftest", action="store_true")
-    ap.add_argument("--leg", choices=["suspended", "running", "referents", "purity", "codes"])
+    ap.add_argument("--leg", choices=["suspended", "running", "referents", "purity", "known", "codes"])
     ap.add_argument("--tier", default="quick")
     ap.add_argument("--seed", type=int, default=0)
     ap.add_argument("--json")
@@ -730,7 +748,8 @@ def main(argv=None):
         cs = corpus_codes(a.tier, a.seed)
         print("code objects:", len(cs), "generated:", sum(1 for c in cs if c["origin"] == "generated"))
         return 0
-    fn = {"suspended": leg_suspended, "running": leg_running, "referents": leg_referents, "purity": leg_purity}[a.leg]
+    fn = {"suspended": leg_suspended, "running": leg_running, "referents": leg_referents, "purity": leg_purity,
+          "known": leg_known_discrepancies}[a.leg]
     r = fn(a.tier, a.seed)
     if a.json:
         with open(a.json, "w") as fh:
@@ -742,7 +761,7 @@ def main(argv=None):
     for v in r["violations"][:5]:
         print("VIOLATION", v["what"])
         print(json.dumps(v["input"], default=repr)[:2500])
-    return 1 if r["violations"] else 0
+    return 1 if any(not v.get("sig") for v in r["violations"]) else 0
 
 
 if __name__ == "__main__":
